@@ -100,7 +100,8 @@ Print Assumptions C03_return_restores_caller.
 (* ---- forward simulation of calls (Lang/Simulation3.v) ----
    A call `f a b ...` of a user routine, the bodies of all routines covered (settings, assignments, print, wait, set / on / off,
    if / else, blocks, while / counted / indexed / endless loops, break, further calls -- of other routines and of the routine itself,
-   to any depth the reference run reaches -- and return), arguments ordinary values,
+   to any depth the reference run reaches -- and return), arguments ordinary values or themselves calls with ordinary values
+   (`f [g 1] 2`: `plain_args`, `inner_call` -- the inner call runs while the frame of the outer one is under construction: `args_run_gen`),
    anywhere in an image that holds the compiled routine bodies, inside a routine or not: whenever the reference semantics runs the
    call (arguments evaluated in the caller's scope, parameters bound by value as the routine's own variables hiding the globals of
    the same name, the body run, `return` from any depth of loops) the compiled CTX / PARAM / JSR / END_CTX sequence and the
@@ -112,7 +113,7 @@ From Bardolph Require Import Lang.Instr Lang.Loader Lang.CodeGen Lang.ExprCompil
 Theorem C03_call_runs_as_its_source_says :
   forall rt mt, bodies_ok rt mt ->                                        (* the body of every routine of the table is covered *)
   forall f args b d, builtin_params f builtin_table = None -> find_rdef rt f = Some d ->
-  plain_args mt args (rd_params d) = true ->
+  plain_args rt mt args (rd_params d) = true ->
   forall after im ss s sig ss' fuel, routines_loaded rt mt im -> sim ss s ->
   code_at im (m_pc s) (c_stmt rt mt false after (SCall f args b)) ->
   Sem.exec rt mt fuel false ss (SCall f args b) = ROk sig ss' ->
@@ -134,7 +135,7 @@ From Bardolph Require Import Lang.CallValue.
 Theorem C03_value_of_a_call_is_what_return_gave :
   forall rt mt, bodies_ok rt mt ->
   forall u f args d, builtin_params f builtin_table = None -> find_rdef rt f = Some d ->
-  plain_args mt args (rd_params d) = true -> must_return (rd_body d) = true -> use_ok u = true ->
+  plain_args rt mt args (rd_params d) = true -> must_return (rd_body d) = true -> use_ok u = true ->
   forall after im ss s sig ss' fuel, routines_loaded rt mt im -> sim ss s ->
   code_at im (m_pc s) (c_stmt rt mt false after (use_stmt u (RCall f args))) ->
   Sem.exec rt mt fuel false ss (use_stmt u (RCall f args)) = ROk sig ss' ->
